@@ -20,6 +20,8 @@ Record case := {
   k_req : greq;          (* observed: NewTaskInfo's request type / devices / portion / memory *)
   k_mut : gpod;          (* observed: pod after Mutate, projected *)
   k_idem : bool;         (* observed: a second Mutate left the pod deeply equal *)
+  k_hooks : list bool;   (* observed: the webhook's entry points accept: ValidateCreate; ValidateUpdate from an
+                            admitted pod with a valid request and from one without request, spec unchanged *)
 }.
 
 Definition str_opt_eqb (a b : option string) : bool :=
@@ -60,20 +62,25 @@ Definition fresh_of (k : case) : string := oget (a_cm (k_mut k)).
 Definition model_agrees (k : case) : bool :=
   let pf := fun _ : string => k_pf k in
   Bool.eqb (admission_validate (k_enabled k) pf (k_pod k)) (k_valid k)
+  (* creation and every update are decided by the same validation *)
+  && forallb (Bool.eqb (k_valid k)) (k_hooks k)
   && greq_eqb (scheduler_interpret pf (k_pod k)) (k_req k)
   && gpod_eqb (mutate idx_str (fresh_of k) (k_pod k)) (k_mut k).
 
 (** The property itself, evaluated on what the real code returned. *)
+(** the pod gets past admission: on creation or by an update of an admitted pod *)
+Definition accepted (k : case) : bool := k_valid k || existsb (fun b => b) (k_hooks k).
+
 Definition monitor_ok (k : case) : bool :=
   let pf := fun _ : string => k_pf k in
   let p := k_pod k in
   (* accepted => finite positive quantities *)
-  (if k_valid k then wellformed_sharing pf p else true)
+  (if accepted k then wellformed_sharing pf p else true)
   (* accepted => the scheduler reads exactly the denoted request *)
-  && (if k_valid k && normalised p then greq_eqb (k_req k) (denoted pf p) else true)
+  && (if accepted k && normalised p then greq_eqb (k_req k) (denoted pf p) else true)
   (* whatever the scheduler types as GPU sharing is rejected when malformed or when sharing is disabled *)
   && (if is_sharing (k_req k) && (negb (k_enabled k) || negb (wellformed_sharing pf p))
-      then negb (k_valid k) else true)
+      then negb (accepted k) else true)
   (* mutation is idempotent *)
   && k_idem k.
 
